@@ -136,9 +136,9 @@ pub fn check_case(
     rng: &mut Rng,
     rep: &mut Report,
 ) {
-    rep.evaluations += 1;
     let strat = if case.multiline { "ml" } else { "line" };
     for leg in legs {
+        rep.evaluations += 1;
         let full = match run_one(case, leg, None) {
             Ok(o) => o,
             Err(_) => {
@@ -316,7 +316,7 @@ pub fn check_case(
 }
 
 pub fn run(ctx: &Ctx) -> Report {
-    let n = ctx.cases(400, 20_000);
+    let n = ctx.cases(2500, 80_000);
     let max_points = if cfg!(miri) { 4 } else if ctx.is_thorough() { 400 } else { 40 };
     crate::par_cases(ctx, 16, n, |rng, _i, rep| {
         let case = gen_case(rng);
